@@ -26,6 +26,11 @@ pub enum Prefix {
     /// application kept sending: the kernel buffers of its connection and the library's own
     /// write buffer are full (sending socket types only)
     Backlogged,
+    /// three accepted peers; the application has polled every connection idle (a recv that
+    /// went pending and was abandoned); AFTER that one connection becomes readable - peer 0
+    /// sends a message nobody will read (0) or leaves (1) - and the application never looks
+    /// again before it closes / drops the socket. The idle peers are the observers.
+    LateActivity(u8),
 }
 
 #[derive(Debug, Clone, Serialize, Deserialize, PartialEq, Eq, Hash)]
@@ -100,8 +105,12 @@ pub fn close_outcome(c: &CloseCase) -> Outcome {
             let peer_type = kind.a_compatible_peer();
             match c.prefix {
                 Prefix::BoundOnly => {}
-                Prefix::Accepted(_) | Prefix::PendingHandshake(_) => {
-                    let count = if let Prefix::Accepted(n) = c.prefix { n } else { 1 };
+                Prefix::Accepted(_) | Prefix::PendingHandshake(_) | Prefix::LateActivity(_) => {
+                    let count = match c.prefix {
+                        Prefix::Accepted(n) => n,
+                        Prefix::LateActivity(_) => 3,
+                        _ => 1,
+                    };
                     for i in 0..count {
                         match realnet::raw_connect(&endpoints[i as usize % endpoints.len()]).await {
                             Ok(mut rc) => {
@@ -131,6 +140,22 @@ pub fn close_outcome(c: &CloseCase) -> Outcome {
                             }
                         }
                         // let the accept loop pick it up
+                        tokio::time::sleep(Duration::from_millis(5)).await;
+                    }
+                    if let Prefix::LateActivity(v) = c.prefix {
+                        if kind.fair_queue_recv() {
+                            use zeromq::SocketRecv;
+                            for _ in 0..3 {
+                                let _ = tokio::time::timeout(Duration::from_millis(5), s.recv()).await;
+                            }
+                        }
+                        if v % 2 == 0 {
+                            let m: Vec<Vec<u8>> = if kind == Kind::XPub { vec![vec![1u8, b'z']] } else { vec![vec![], b"late".to_vec()] };
+                            let _ = peers[0].send_msg(&m).await;
+                        } else {
+                            drop(peers.remove(0));
+                        }
+                        // the reactor tells the socket's stream about it; the application does not look
                         tokio::time::sleep(Duration::from_millis(5)).await;
                     }
                 }
@@ -348,7 +373,10 @@ pub fn grid() -> Vec<CloseCase> {
     let mut v = vec![];
     for kind in ALL_KINDS {
         for transport in [Transport::TcpV4, Transport::TcpV6, Transport::Ipc] {
-            for prefix in [Prefix::BoundOnly, Prefix::Accepted(2), Prefix::ConnectedOut, Prefix::MidTraffic, Prefix::PendingHandshake(10), Prefix::Backlogged] {
+            for prefix in [Prefix::BoundOnly, Prefix::Accepted(2), Prefix::ConnectedOut, Prefix::MidTraffic, Prefix::PendingHandshake(10), Prefix::Backlogged, Prefix::LateActivity(0), Prefix::LateActivity(1)] {
+                if matches!(prefix, Prefix::LateActivity(_)) && !kind.fair_queue_recv() {
+                    continue;
+                }
                 if prefix == Prefix::Backlogged && !matches!(kind, Kind::Pub | Kind::XPub | Kind::Push | Kind::Dealer) {
                     continue;
                 }
@@ -398,7 +426,8 @@ pub fn run(ctx: &Ctx) -> (Report, PropertyMeta) {
         |s| CloseCase {
             kind: s.pick(&ALL_KINDS),
             transport: s.pick(&[Transport::TcpV4, Transport::TcpV6, Transport::TcpLocalhost, Transport::Ipc]),
-            prefix: match s.below(6) {
+            prefix: match s.below(7) {
+                6 => Prefix::LateActivity(s.below(2) as u8),
                 0 => Prefix::BoundOnly,
                 1 => Prefix::Accepted(s.range(1, 3) as u8),
                 2 => Prefix::ConnectedOut,
